@@ -258,6 +258,11 @@ def declared(dump, where):
     return out
 
 
+def rest_of(dump):
+    """the templates that come after the faulted one (the processes of the faulted template list its locals and are not compared)"""
+    return {"later-templates": json.loads(json.dumps(dump["templates"][1:])), "dynamic-templates": dump.get("dyn_templates", [])}
+
+
 def run_decls(arg):
     where, t, i, n = arg
     part = engine.Part()
@@ -305,6 +310,13 @@ def run_decls(arg):
             dd = diff(refs[gk], declared(r["dump"], "global"))
             if dd:
                 bad = ("globals", dd)
+            # ... and so must everything that comes after it: the next template (parameters, declarations, labels), the processes
+            rk = ("rest-of", where)
+            if rk not in refs:
+                refs[rk] = rest_of(X.run_docs(w, [decl_model("int lv;", where)], want=["dump"], extra={"static": "off"})[0]["dump"])
+            dd = None if bad else diff(refs[rk], rest_of(r["dump"]))
+            if dd:
+                bad = ("later-blocks", dd)
             elsewhere = [e for e in r.get("errors", []) if e.get("path") and e["path"] != "/nta/template[1]/declaration"]
             if not bad and elsewhere:
                 bad = ("diagnostic-elsewhere", (elsewhere[0]["path"], elsewhere[0]["msg"], ""))
